@@ -43,8 +43,14 @@ ASSUMPTIONS = ["rectangular fmat/mat with len(wt) = nobj >= 1, finite non-NaN en
 
 WT = [-4.0, -2.0, -1.0, -1.0, -0.5, -0.25, 0.0, 0.25, 0.5, 1.0, 1.0, 1.0, 2.0, 3.0]
 PREF = [0.0, 0.25, 0.5, 0.75, 1.0, 1.0, 1.5, 2.0, 3.0]
-POS = [0.25, 0.5, 2.0, 3.0, 4.0, 0.75]
-STYLES = ["small", "small", "fine", "collinear", "chain", "dups", "const", "binary"]
+POS = [0.25, 0.5, 2.0, 3.0, 4.0, 0.75, 2.0 ** -40, 2.0 ** 20, 3 * 2.0 ** -30]
+STYLES = ["small", "small", "fine", "collinear", "chain", "dups", "const", "binary", "tiny", "tiny"]
+# units an objective may be measured in (powers of two: the exact regime still applies); 0 = unscaled
+EXPS = [0, 0, 0, -40, -33, -30, -27, -26, -20, -10, -3, 7, 13, 20]
+TINYCV = [2.0 ** -40, -2.0 ** -40, 2.0 ** -60, -2.0 ** -60, 3 * 2.0 ** -30]
+
+LAYOUTS = ["c", "c", "f", "strided", "readonly", "int"]      # how the arrays handed to the library are laid out in memory
+CVKINDS = ["float", "float", "npfloat", "np0d"]               # how the constraint scores are passed to dominates
 
 # ------------------------------------------------------------------ generators
 def _points(rng, npt, nobj, style):
@@ -75,17 +81,59 @@ def _points(rng, npt, nobj, style):
                 for p in pts: p[k] = c
         rng.shuffle(pts)
         return pts
+    if style == "tiny":               # exact ties next to differences of 2^-27 .. 2^-45 (far below any tolerance), per objective
+        cols = []
+        for k in range(nobj):
+            r = rng.random()
+            base = rng.choice([0.0, 0.0, 1.0, -2.5, rng.randint(-64, 64) / 64.0])
+            q = rng.randint(27, 45)
+            if r < 0.2: col = [base] * npt
+            elif r < 0.75: col = [base + rng.randint(0, 3) * 2.0 ** -q for _ in range(npt)]
+            else: col = [rng.randint(-128, 128) / 64.0 for _ in range(npt)]
+            cols.append(col)
+        return [[cols[k][i] for k in range(nobj)] for i in range(npt)]
     raise ValueError(style)
 
+def _units(rng, rows, nobj, style):
+    """express every objective in its own unit 2^e (e in -40..20); returns (rows, exps)"""
+    if style == "tiny" or rng.random() < 0.45: return rows, [0] * nobj
+    ex = [rng.choice(EXPS) for _ in range(nobj)]
+    return [[x * 2.0 ** e for x, e in zip(r, ex)] for r in rows], ex
+
+def _fx(a, op, b):
+    """the float operation is exact on these operands"""
+    fa, fb = Fraction(a), Fraction(b)
+    if op == "*": return Fraction(a * b) == fa * fb
+    if op == "+": return Fraction(a + b) == fa + fb
+    return Fraction(a - b) == fa - fb
+
+def _exact_rows(rows, mul, shift=None):
+    """products with the column multipliers, the optional translation and every difference inside a column are exact floats"""
+    if not rows: return True
+    for k, m in enumerate(mul):
+        col = [r[k] for r in rows]
+        if shift is not None:
+            if not all(_fx(x, "+", shift[k]) for x in col): return False
+            col = col + [x + shift[k] for x in col]
+        if not all(_fx(x, "*", m) for x in col): return False
+        v = [x * m for x in col]
+        if not all(_fx(a, "-", b) for a in (max(v), min(v)) for b in v) or not all(_fx(a, "-", min(v)) for a in v): return False
+    return True
+
 def _case_pareto(rng, npt, nobj, style):
-    fmat = _points(rng, npt, nobj, style)
+    fmat, ex = _units(rng, _points(rng, npt, nobj, style), nobj, style)
     wt = [rng.choice(WT) for _ in range(nobj)]
     if rng.random() < 0.35: wt = [rng.choice([1.0, -1.0]) for _ in range(nobj)]
+    if rng.random() < 0.15: wt = [w * 2.0 ** rng.choice([-40, -20, 20]) for w in wt]
     perm = list(range(npt)); rng.shuffle(perm)
     if rng.random() < 0.2: perm = perm[::-1] if perm == sorted(perm) else sorted(perm, reverse=True)
     scale = [rng.choice(POS) for _ in range(nobj)]
+    if rng.random() < 0.15: scale = [2.0 ** -40] * nobj
+    if not (_exact_rows(fmat, wt) and _exact_rows([[x * c for x, c in zip(r, scale)] for r in fmat], wt)
+            and all(_fx(x, "*", c) for r in fmat for x, c in zip(r, scale))):
+        scale = [rng.choice([0.25, 0.5, 2.0, 4.0]) for _ in range(nobj)]          # keep every float product exact
     return {"kind": "pareto", "style": style, "nobj": nobj, "fmat": fmat, "wt": wt, "perm": perm, "scale": scale,
-            "wt_col": rng.random() < 0.15}
+            "units": ex, "wt_col": rng.random() < 0.15, "layout": rng.choice(LAYOUTS)}
 
 def _sol(rng, nobj, near=None):
     if near is not None and rng.random() < 0.6:
@@ -94,16 +142,21 @@ def _sol(rng, nobj, near=None):
             o[rng.randrange(nobj)] += rng.choice([-1.0, 1.0, 0.5, -0.5, 0.0])
     else:
         o = [float(rng.randint(0, 3)) for _ in range(nobj)]
-    cv = rng.choice([-2.0, -1.0, -0.5, 0.0, 0.0, 0.0, 0.25, 0.5, 1.0, 1.0, 2.0])
+    cv = rng.choice([-2.0, -1.0, -0.5, 0.0, 0.0, 0.0, 0.25, 0.5, 1.0, 1.0, 2.0] + TINYCV)
     if near is not None and rng.random() < 0.3: cv = near[1]
     return [o, cv]
 
 def _case_dom(rng, nobj):
     a = _sol(rng, nobj); b = _sol(rng, nobj, a); c = _sol(rng, nobj, b)
-    return {"kind": "dom", "nobj": nobj, "sols": [a, b, c]}
+    e = rng.choice(EXPS)              # all objectives in a unit 2^e; and now and then objectives that differ by 2^-40 only
+    sols = [[[x * 2.0 ** e for x in o], cv] for o, cv in (a, b, c)]
+    if rng.random() < 0.2:
+        for s_ in sols[1:]:
+            k = rng.randrange(nobj); s_[0] = list(sols[0][0]); s_[0][k] = s_[0][k] + rng.choice([-1, 0, 1]) * 2.0 ** (e - 40)
+    return {"kind": "dom", "nobj": nobj, "sols": sols, "unit": e, "cvkind": rng.choice(CVKINDS)}
 
 def _case_dist(rng, fn, npt, nobj, style, domain=True):
-    mat = _points(rng, npt, nobj, style)
+    mat, ex = _units(rng, _points(rng, npt, nobj, style), nobj, style)
     sign = [rng.choice([1.0, -1.0]) for _ in range(nobj)]
     if rng.random() < 0.12: sign = [rng.choice([1.0, -1.0, 2.0, -0.5, 0.25, -3.0]) for _ in range(nobj)]
     pref = [rng.choice(PREF) for _ in range(nobj)]
@@ -117,7 +170,12 @@ def _case_dist(rng, fn, npt, nobj, style, domain=True):
         elif r < 0.7: pref[rng.randrange(nobj)] = -rng.choice(PREF[1:])
         else: sign = [0.0] * nobj
     shift = [rng.randint(-256, 256) / 64.0 for _ in range(nobj)]
-    return {"kind": "dist", "fn": fn, "style": style, "nobj": nobj, "mat": mat, "sign": sign, "pref": pref, "shift": shift}
+    if rng.random() < 0.5 or not _exact_rows(mat, sign, shift):
+        shift = [t * 2.0 ** e for t, e in zip(shift, ex)]                          # a translation in the objective's own unit
+    if not _exact_rows(mat, sign, shift): shift = [0.0] * nobj
+    if not _exact_rows(mat, sign): sign = [1.0 if x > 0 else -1.0 for x in sign] if any(sign) else sign
+    return {"kind": "dist", "fn": fn, "style": style, "nobj": nobj, "mat": mat, "sign": sign, "pref": pref, "shift": shift,
+            "units": ex, "layout": rng.choice(LAYOUTS), "extra_kw": rng.random() < 0.1}
 
 FNS = ["core", "prob", "transfn"]
 
@@ -163,20 +221,47 @@ def gen_cases(rng, tier):
 def _hx(a):
     return [float(x).hex() for x in numpy.asarray(a, dtype=float).ravel()]
 
-def _arr(rows, nobj):
-    return numpy.array(rows, dtype=float).reshape(len(rows), nobj)
+def _arr(rows, nobj, layout="c"):
+    a = numpy.array(rows, dtype=float).reshape(len(rows), nobj)
+    if layout == "f": return numpy.asfortranarray(a)
+    if layout == "strided":           # a non-contiguous view into a larger buffer filled with decoys
+        big = numpy.full((2 * len(rows) + 1, 2 * nobj + 1), 7.5); v = big[1::2, 1::2]; v[...] = a; return v
+    if layout == "int" and a.size and numpy.all(a == numpy.round(a)) and numpy.all(numpy.abs(a) < 2 ** 31):
+        return a.astype(numpy.int64)  # integer-valued objectives handed over as an integer array
+    if layout == "readonly": a.flags.writeable = False
+    return a
+
+def _vec(v, layout="c"):
+    a = numpy.array(v, dtype=float)
+    if layout == "strided":
+        big = numpy.full(2 * len(v) + 1, -3.25); w = big[1::2]; w[...] = a; return w
+    if layout == "readonly": a.flags.writeable = False
+    return a
+
+def _shares(out, *ins):
+    o = numpy.asarray(out)
+    return bool(any(numpy.shares_memory(o, numpy.asarray(i)) for i in ins))
 
 def run_impl(case):
     k = case["kind"]
     if k == "pareto":
         from pybrops.core.util.pareto import is_pareto_efficient
         nobj = case["nobj"]
-        f = _arr(case["fmat"], nobj); wt = numpy.array(case["wt"], dtype=float)
+        lay = case.get("layout", "c")
+        f = _arr(case["fmat"], nobj, lay); wt = _vec(case["wt"], lay)
         if case.get("wt_col"): wt = wt.reshape(nobj, 1)
         f0, w0 = f.copy(), wt.copy()
         m = is_pareto_efficient(f, wt, return_mask=True)
         ix = is_pareto_efficient(f, wt, return_mask=False)
         d = is_pareto_efficient(f, wt)
+        # results are fresh arrays: scribbling over them changes neither the inputs nor a later call
+        alias = _shares(m, f, wt) or _shares(ix, f, wt) or _shares(d, f, wt) or _shares(m, d)
+        keep_m, keep_ix = m.copy(), numpy.array(ix).copy()
+        if m.size: m[...] = ~m
+        if numpy.asarray(ix).size and numpy.asarray(ix).flags.writeable: ix[...] = -1
+        again = bool(numpy.array_equal(is_pareto_efficient(f, wt, True), keep_m)
+                     and numpy.array_equal(is_pareto_efficient(f, wt, False), keep_ix))
+        m, ix = keep_m, keep_ix
         fp = f[numpy.array(case["perm"], dtype=int)] if len(case["perm"]) else f.copy()
         mp = is_pareto_efficient(fp, wt, True)
         fs = f * numpy.array(case["scale"], dtype=float)[None, :]
@@ -186,39 +271,54 @@ def run_impl(case):
                 "idx": [int(x) for x in ix], "idx_kind": numpy.asarray(ix).dtype.kind, "idx_ndim": int(numpy.asarray(ix).ndim),
                 "default": [bool(x) for x in d], "default_dtype": str(numpy.asarray(d).dtype),
                 "mask_perm": [bool(x) for x in mp], "mask_scaled": [bool(x) for x in ms], "idx_scaled": [int(x) for x in ixs],
-                "unchanged": bool(numpy.array_equal(f, f0) and numpy.array_equal(wt, w0))}
+                "unchanged": bool(numpy.array_equal(f, f0) and numpy.array_equal(wt, w0)), "alias": alias, "again": again}
     if k == "dom":
         from pybrops.opt.algo.pymoo_addon import dominates
-        sols = [(numpy.array(o, dtype=float), float(cv)) for o, cv in case["sols"]]
+        ck = case.get("cvkind", "float")
+        mk = {"float": float, "npfloat": numpy.float64, "np0d": lambda x: numpy.array(float(x))}[ck]
+        sols = [(numpy.array(o, dtype=float), mk(cv)) for o, cv in case["sols"]]
         tab = []
         for (o1, c1) in sols:
             row = []
             for (o2, c2) in sols:
                 r = dominates(o1, c1, o2, c2)
+                if isinstance(r, numpy.ndarray) and r.shape == () and r.dtype == bool: r = bool(r)
                 if not isinstance(r, (bool, numpy.bool_)): raise TypeError("dominates returned %r" % type(r))
                 row.append(bool(r))
             tab.append(row)
         return {"tab": tab}
     if k == "dist":
         nobj = case["nobj"]
-        mat = _arr(case["mat"], nobj); sign = numpy.array(case["sign"], dtype=float); pref = numpy.array(case["pref"], dtype=float)
+        lay = case.get("layout", "c")
+        mat = _arr(case["mat"], nobj, lay); sign = _vec(case["sign"], lay); pref = _vec(case["pref"], lay)
         m0, s0, p0 = mat.copy(), sign.copy(), pref.copy()
+        kw = {"unused_option": 3} if case.get("extra_kw") else {}
         if case["fn"] == "core":
             from pybrops.core.util.trans import trans_ndpt_pseudo_dist
-            call = lambda M: trans_ndpt_pseudo_dist(M, objfn_minmax=sign, objfn_pseudoweight=pref)
+            call = lambda M: trans_ndpt_pseudo_dist(M, objfn_minmax=sign, objfn_pseudoweight=pref, **kw)
         elif case["fn"] == "prob":
             from pybrops.breed.prot.sel.prob.trans import trans_ndpt_to_vec_dist
-            call = lambda M: trans_ndpt_to_vec_dist(M, obj_wt=sign, vec_wt=pref)
+            call = lambda M: trans_ndpt_to_vec_dist(M, obj_wt=sign, vec_wt=pref, **kw)
         else:
             from pybrops.breed.prot.sel.transfn import trans_ndpt_to_vec_dist as tfn
-            call = lambda M: tfn(M, objfn_wt=sign, wt=pref)
+            call = (lambda M: tfn(M, objfn_wt=sign, wt=pref, **kw)) if nobj % 2 else (lambda M: tfn(M, sign, pref, **kw))
         import warnings
         with warnings.catch_warnings():
             warnings.simplefilter("ignore")
             d = call(mat)
             unchanged = bool(numpy.array_equal(mat, m0) and numpy.array_equal(sign, s0) and numpy.array_equal(pref, p0))
-            ds = call(mat + numpy.array(case["shift"], dtype=float)[None, :])
-        return {"d": _hx(d), "d_shape": list(numpy.asarray(d).shape), "d_shift": _hx(ds), "unchanged": unchanged}
+            alias = _shares(d, mat, sign, pref)
+            keep = numpy.array(d, dtype=float).copy()
+            if numpy.asarray(d).size and numpy.asarray(d).flags.writeable: d[...] = -1.0      # scribble over the result ...
+            again = bool(numpy.array_equal(numpy.asarray(call(mat), dtype=float), keep, equal_nan=True))   # ... a later call is unaffected
+            d = keep
+            sh = numpy.array(case["shift"], dtype=float)[None, :]
+            if mat.flags.writeable and mat.dtype == float and len(case["mat"]) % 2:
+                mat += sh; ds = call(mat)           # the SAME array object, translated in place between the two calls
+            else:
+                ds = call(mat + sh)
+        return {"d": _hx(d), "d_shape": list(numpy.asarray(d).shape), "d_shift": _hx(ds), "unchanged": unchanged,
+                "alias": alias, "again": again}
     raise ValueError(k)
 
 # ------------------------------------------------------------------ Coq emission
@@ -297,6 +397,8 @@ def _pred_pareto(case, out):
     if sorted(out["idx_scaled"]) != [i for i in range(n) if out["mask_scaled"][i]]:
         bad.append("mask and index forms disagree on the rescaled set")
     if not out["unchanged"]: bad.append("input arrays were modified")
+    if out.get("alias"): bad.append("a result shares memory with an input (or the two mask results with each other)")
+    if not out.get("again", True): bad.append("a repeated call on the same inputs gives a different result after the first result was overwritten")
     return bad
 
 def _pred_dom(case, out):
@@ -364,6 +466,8 @@ def _pred_dist(case, out):
         if not _close2(ds[i], want[i]):
             bad.append("distance of point %d changes under translation by %s: %r vs %r" % (i, case["shift"], ds[i], d[i])); break
     if not out["unchanged"]: bad.append("input arrays were modified")
+    if out.get("alias"): bad.append("the result shares memory with an input")
+    if not out.get("again", True): bad.append("a repeated call on the same inputs gives a different result after the first result was overwritten")
     return bad
 
 def pred(case, out):
@@ -397,6 +501,9 @@ def describe(case, out):
         n = len(_rows(case))
         d["npt"] = "0" if n == 0 else "1" if n == 1 else "2-5" if n <= 5 else "6-14" if n <= 14 else "15+"
         d["style"] = case.get("style", "?")
+        ex = case.get("units", [0])
+        d["units"] = "2^0" if not any(ex) else ("<=2^-27" if min(ex) <= -27 else "other")
+        d["layout"] = case.get("layout", "c")
     if k == "pareto" and "mask" in out:
         d["efficient"] = "all" if all(out["mask"]) else ("one" if sum(out["mask"]) == 1 else "some")
         d["weights"] = "zero-in" if any(x == 0 for x in case["wt"]) else ("mixed-sign" if len(set(x > 0 for x in case["wt"])) > 1 else "same-sign")
